@@ -265,14 +265,54 @@ Section Cmds.
       rewrite E1, E2, X1, X2. simpl; auto.
   Qed.
 
+  (* ----- sorted sets: member keys and score-index keys ----- *)
+  Lemma has_member_R s1 s2 k v m : RR s1 s2 -> (TZ, k, v) <> (t0, k0, g) -> has_member s1 k v m = has_member s2 k v m.
+  Proof. intros H G1. unfold has_member. now rewrite (R_el _ _ _ _ _ _ H TZ k v (SB m) G1). Qed.
+  Lemma zidx_R s1 s2 k v : RR s1 s2 -> (TZ, k, v) <> (t0, k0, g) -> zidx s1 k v = zidx s2 k v.
+  Proof. intros H G1. unfold zidx. now rewrite (R_elof _ _ _ _ _ _ H TZ k v G1). Qed.
+  Lemma R_zset_item s1 s2 k v x : RR s1 s2 -> (TZ, k, v) <> (t0, k0, g) -> (TZ, k, v) <> (t0, k0, 0) ->
+    forall sa sb, RR sa sb -> RR (zset_item s1 k v sa x) (zset_item s2 k v sb x).
+  Proof.
+    intros H G1 G2 sa sb Hab. unfold zset_item. destruct x as [sc m].
+    rewrite <- (R_el _ _ _ _ _ _ H TZ k v (SB m) G1). destruct (el_get s1 TZ k v (SB m)) as [e|].
+    - destruct (score_of e =? sc); auto. apply R_el_put; auto. apply R_el_put; auto. apply R_el_del; auto.
+    - apply R_el_put; auto. apply R_el_put; auto.
+  Qed.
+  Lemma R_fold_zset_item s1 s2 k v l : RR s1 s2 -> (TZ, k, v) <> (t0, k0, g) -> (TZ, k, v) <> (t0, k0, 0) ->
+    forall sa sb, RR sa sb -> RR (fold_left (zset_item s1 k v) l sa) (fold_left (zset_item s2 k v) l sb).
+  Proof. intros H G1 G2. induction l as [|x l IH]; intros sa sb Hab; simpl; auto. apply IH. now apply R_zset_item. Qed.
+  Lemma R_zdel_item s1 s2 k v m : RR s1 s2 -> (TZ, k, v) <> (t0, k0, g) ->
+    forall sa sb, RR sa sb -> RR (zdel_item s1 k v sa m) (zdel_item s2 k v sb m).
+  Proof.
+    intros H G1 sa sb Hab. unfold zdel_item. rewrite <- (R_el _ _ _ _ _ _ H TZ k v (SB m) G1).
+    destruct (el_get s1 TZ k v (SB m)); auto. apply R_el_del; auto. apply R_el_del; auto.
+  Qed.
+  Lemma R_fold_zdel_item {A} s1 s2 k v (f : A -> bytes) l : RR s1 s2 -> (TZ, k, v) <> (t0, k0, g) ->
+    forall sa sb, RR sa sb ->
+      RR (fold_left (fun st a => zdel_item s1 k v st (f a)) l sa) (fold_left (fun st a => zdel_item s2 k v st (f a)) l sb).
+  Proof. intros H G1. induction l as [|x l IH]; intros sa sb Hab; simpl; auto. apply IH. now apply R_zdel_item. Qed.
+  Lemma R_zrem_entries s1 s2 k h ud ents : RR s1 s2 -> (TZ, k, h_ver h) <> (t0, k0, g) ->
+    ((TZ, k) = (t0, k0) -> (~ hdead T h -> h_ver h <> g) /\ h_ver h <> 0) ->
+    snd (zrem_entries s1 k h ud ents) = snd (zrem_entries s2 k h ud ents) /\
+    RR (fst (zrem_entries s1 k h ud ents)) (fst (zrem_entries s2 k h ud ents)).
+  Proof.
+    intros H G1 G3. unfold zrem_entries.
+    assert (E : filter (fun x : Z * bytes => has_member s1 k (h_ver h) (snd x)) ents =
+                filter (fun x : Z * bytes => has_member s2 k (h_ver h) (snd x)) ents)
+      by (apply filter_ext; intros a; now apply has_member_R).
+    rewrite <- E. cbn [fst snd]. split; auto. apply R_incr_size; auto.
+    apply (R_fold_zdel_item s1 s2 k (h_ver h) (fun x : Z * bytes => snd x)); auto.
+  Qed.
+
   Lemma P_zadd k sml : P (CZAdd k sml).
   Proof.
     intros s1 s2 H. cbn [step]. unfold do_zadd. destruct sml as [|x sml]; [simpl; auto|].
     destruct (prepare_cases _ _ TZ k H) as (h & ud & e1 & e2 & P1 & P2 & G1 & G2 & G3). rewrite P1, P2.
     set (l := zlast_wins (x :: sml)).
-    rewrite <- (filter_el_none s1 s2 TZ k (h_ver h) (fun x0 : Z * bytes => SB (snd x0)) l H G1).
-    cbn [fst snd]. split; auto. apply R_incr_size; auto.
-    apply (R_fold_el_put T t0 k0 g s1 s2 TZ k (h_ver h) (fun x0 : Z * bytes => SB (snd x0)) (fun x0 => EI (fst x0))); auto.
+    assert (E : filter (fun x0 : Z * bytes => negb (has_member s1 k (h_ver h) (snd x0))) l =
+                filter (fun x0 : Z * bytes => negb (has_member s2 k (h_ver h) (snd x0))) l)
+      by (apply filter_ext; intros a; now rewrite (has_member_R s1 s2 k (h_ver h) (snd a) H G1)).
+    rewrite <- E. cbn [fst snd]. split; auto. apply R_incr_size; auto. now apply R_fold_zset_item.
   Qed.
 
   Lemma P_zincrby k d m : P (CZIncrBy k d m).
@@ -281,8 +321,53 @@ Section Cmds.
     destruct (prepare_cases _ _ TZ k H) as (h & ud & e1 & e2 & P1 & P2 & G1 & G2 & G3). rewrite P1, P2.
     rewrite <- (R_el _ _ _ _ _ _ H TZ k (h_ver h) (SB m) G1).
     destruct (el_get s1 TZ k (h_ver h) (SB m)); cbn [fst snd]; split; auto.
-    - apply R_el_put; auto.
-    - apply R_el_put; auto. apply R_incr_size; auto.
+    - apply R_el_put; auto. apply R_el_put; auto. apply R_el_del; auto.
+    - apply R_el_put; auto. apply R_el_put; auto. apply R_incr_size; auto.
+  Qed.
+
+  Lemma zrem_noe s k ms : noe s TZ k -> (forall sb, meta_get s TZ k = None -> el_get s TZ k 0 sb = None) ->
+    exists s', do_zrem Compact s ts k ms = (s', RInt 0) /\ noop s s' TZ k.
+  Proof.
+    intros N Z. unfold do_zrem. destruct ms as [|m ms]; [exists s; split; auto; now left|].
+    unfold noe in N. unfold coll_header. destruct (meta_get s TZ k) as [mm|] eqn:M.
+    - rewrite N. exists s. split; auto. now left.
+    - replace (is_expired Compact fresh_hdr ts) with false by reflexivity. cbv iota beta.
+      assert (F : filter (has_member s k (h_ver fresh_hdr)) (dedup (m :: ms)) = []).
+      { apply filter_none. intros a. unfold has_member. now rewrite (Z _ eq_refl). }
+      rewrite F. simpl. exists (meta_del s TZ k). split.
+      + unfold incr_size. simpl. reflexivity.
+      + right. auto.
+  Qed.
+
+  Lemma P_zrem k ms : P (CZRem k ms).
+  Proof.
+    intros s1 s2 H. cbn [step]. destruct (header_cases _ _ TZ k H) as [[E L] | (X & N1 & N2)].
+    - unfold do_zrem. destruct ms as [|m ms]; [simpl; auto|].
+      unfold coll_header. rewrite <- E. destruct (meta_get s1 TZ k) as [mm|] eqn:M.
+      + destruct (is_expired Compact (m_hdr mm) ts) eqn:X; [simpl; auto|].
+        destruct (L mm eq_refl X) as [L1 L2].
+        assert (F : filter (has_member s1 k (h_ver (m_hdr mm))) (dedup (m :: ms)) = filter (has_member s2 k (h_ver (m_hdr mm))) (dedup (m :: ms)))
+          by (apply filter_ext; intros a; now apply has_member_R).
+        rewrite <- F. cbn [fst snd]. split; auto. apply R_incr_size.
+        * apply (R_fold_zdel_item s1 s2 k (h_ver (m_hdr mm)) (fun x : bytes => x)); auto.
+        * intros Y. split; [intros _ G|intros G]; [apply L1|apply L2]; inversion Y; congruence.
+      + replace (is_expired Compact fresh_hdr ts) with false by reflexivity. cbv iota beta.
+        change (h_ver fresh_hdr) with 0.
+        destruct (gen_eqb (TZ, k, 0) (t0, k0, g)) eqn:Gz.
+        * apply gen_eqb_eq in Gz. destruct (zero_focus s1 s2 TZ k H (or_introl Gz)) as [Z1 Z2].
+          assert (F1 : filter (has_member s1 k 0) (dedup (m :: ms)) = []) by (apply filter_none; intros a; unfold has_member; now rewrite Z1).
+          assert (F2 : filter (has_member s2 k 0) (dedup (m :: ms)) = []) by (apply filter_none; intros a; unfold has_member; now rewrite Z2).
+          rewrite F1, F2. simpl. split; auto. unfold incr_size. simpl. now apply R_meta_del.
+        * assert (Gn : (TZ, k, 0) <> (t0, k0, g)) by (intros Y; apply gen_eqb_eq in Y; congruence).
+          assert (F : filter (has_member s1 k 0) (dedup (m :: ms)) = filter (has_member s2 k 0) (dedup (m :: ms)))
+            by (apply filter_ext; intros a; now apply has_member_R).
+          rewrite <- F. cbn [fst snd]. split; auto. unfold incr_size.
+          assert (size_of None + - Z.of_nat (length (filter (has_member s1 k 0) (dedup (m :: ms)))) <=? 0 = true) as -> by (simpl; lia).
+          apply R_meta_del. apply (R_fold_zdel_item s1 s2 k 0 (fun x : bytes => x)); auto.
+    - destruct (zero_focus s1 s2 TZ k H (or_intror X)) as [Z1 Z2].
+      destruct (zrem_noe s1 k ms N1 (fun sb _ => Z1 sb)) as (s1' & E1 & O1).
+      destruct (zrem_noe s2 k ms N2 (fun sb _ => Z2 sb)) as (s2' & E2 & O2).
+      rewrite E1, E2. simpl. split; auto. eapply R_noop; eauto.
   Qed.
 
   Lemma P_zremrangebyscore k lo hi : P (CZRemRangeByScore k lo hi).
@@ -290,9 +375,7 @@ Section Cmds.
     intros s1 s2 H. cbn [step]. unfold do_zremrangebyscore.
     destruct (exist_cases _ _ TZ k H) as [(h & a & b & E1 & E2 & G1 & G2 & G3) | [N1 N2]].
     - rewrite E1, E2. destruct (size_of (Some (a, b)) =? 0); [simpl; auto|].
-      rewrite <- (R_elof _ _ _ _ _ _ H TZ k (h_ver h) G1).
-      cbn [fst snd]. split; auto. apply R_incr_size; auto.
-      apply (R_fold_el_del T t0 k0 g s1 s2 TZ k (h_ver h) (fun m0 => SB m0)); auto.
+      rewrite <- (zidx_R s1 s2 k (h_ver h) H G1). now apply R_zrem_entries.
     - destruct (noe_header _ _ _ N1) as (h1 & u1 & x1 & E1 & X1 & [-> | [-> ->]]);
       destruct (noe_header _ _ _ N2) as (h2 & u2 & x2 & E2 & X2 & [-> | [-> ->]]);
       rewrite E1, E2; try destruct x1; try destruct x2; simpl; auto.
@@ -631,15 +714,14 @@ Section Cmds.
   Proof.
     intros s1 s2 H. cbn [step]. unfold do_zremrangebyrank.
     destruct (exist_cases _ _ TZ k H) as [(h & ua & ub & E1 & E2 & G1 & G2 & G3) | [N1 N2]].
-    - rewrite E1, E2. cbv zeta. rewrite <- (R_elof _ _ _ _ _ _ H TZ k (h_ver h) G1).
+    - rewrite E1, E2. cbv zeta. rewrite <- (zidx_R s1 s2 k (h_ver h) H G1).
       destruct (size_of (Some (ua, ub)) =? 0); [simpl; auto|].
       match goal with |- context [if ?c then _ else _] => destruct c end.
       { cbn [not_exist_or_expired orb fst snd]. split; auto. now apply R_meta_del. }
       match goal with |- context [if ?c then _ else _] => destruct c end; [simpl; auto|].
       match goal with |- context [if ?c then _ else _] => destruct c end.
       { cbn [fst snd]. split; auto. apply R_incr_size; auto. }
-      cbn [fst snd]. split; auto. apply R_incr_size; auto.
-      apply (R_fold_el_del T t0 k0 g s1 s2 TZ k (h_ver h) (fun m0 : bytes => SB m0)); auto.
+      now apply R_zrem_entries.
     - destruct (noe_header _ _ _ N1) as (h1 & u1 & x1 & E1 & X1 & [-> | [-> ->]]);
       destruct (noe_header _ _ _ N2) as (h2 & u2 & x2 & E2 & X2 & [-> | [-> ->]]);
       rewrite E1, E2; try destruct x1; try destruct x2; simpl; auto.
@@ -658,7 +740,7 @@ Section Cmds.
     - apply P_hincrby. - apply P_sadd.
     - intros s1 s2 H. cbn [step]. now apply P_coll_rem.
     - apply P_spop. - apply P_zadd. - apply P_zincrby.
-    - intros s1 s2 H. cbn [step]. now apply P_coll_rem.
+    - apply P_zrem.
     - apply P_zremrangebyscore. - apply P_lpush. - apply P_lpop.
     - apply P_setopt. - apply P_setifeq. - apply P_delifeq. - apply P_ltrim. - apply P_lset. - apply P_zremrangebyrank.
   Qed.
@@ -675,7 +757,7 @@ Section Cmds.
   Lemma read_coll_R t s1 s2 k : RR s1 s2 -> read_coll Compact s1 ts t k = read_coll Compact s2 ts t k.
   Proof using ts_nz ts_T.
     intros H. destruct (exist_cases _ _ t k H) as [(h & a & b & E1 & E2 & G1 & _) | [N1 N2]].
-    - unfold read_coll. rewrite E1, E2. now rewrite (R_elof _ _ _ _ _ _ H t k (h_ver h) G1).
+    - unfold read_coll. rewrite E1, E2. unfold zidx. destruct t; now rewrite (R_elof _ _ _ _ _ _ H _ k (h_ver h) G1).
     - now rewrite !read_coll_noe.
   Qed.
   Lemma read_R s1 s2 t k : RR s1 s2 -> read Compact s1 ts t k = read Compact s2 ts t k.
